@@ -1,7 +1,7 @@
 """C15 - symbol-version sections resolve each symbol to its encoded version."""
 from symx.api import H
 from spec import enc
-from harness.elfkit import stream_length
+from harness.elfkit import stream_length, elf_object
 from spec import elf_layout as L
 from spec import registry as REG
 
@@ -23,16 +23,8 @@ STR_AT_B = {0: '', 1: 'abc_de', 8: 'W7', 11: 'X9', 4: '_de', 9: '7'}
 _CUR_STR = [STR_AT]
 
 
-class _Elf:
-    def __init__(self, ctx, stream, cls, little):
-        S = ctx.lib('elf.structs')
-        self.stream = stream
-        self.stream_len = stream_length(stream)
-        self.elfclass = cls
-        self.little_endian = little
-        self.structs = S.ELFStructs(little_endian=little, elfclass=cls)
-        self.structs.create_basic_structs()
-        self.structs.create_advanced_structs('ET_DYN', 'EM_X86_64', 'ELFOSABI_SYSV')
+def _Elf(ctx, stream, cls, little, machine='EM_X86_64'):
+    return elf_object(ctx, stream, cls, little, machine, 'ET_DYN')
 
 
 def _shdr(**kw):
